@@ -10,6 +10,7 @@ package checks
 import (
 	"encoding/json"
 	"fmt"
+	"math/big"
 	"testing"
 	"time"
 
@@ -131,6 +132,7 @@ type lMachine struct {
 	farmCycle int
 	execDep   int
 	execWd    int
+	c19       *c19State
 }
 
 func (m *lMachine) fail(assertion, ctx, f string, a ...interface{}) {
@@ -247,6 +249,9 @@ func newLMachine(t rec.TB, r *rec.Rec, prop string, cs *lCase) *lMachine {
 			m.mmInit[fmt.Sprintf("%d/%s", mk, d)] = c.Bal(c.Accs[lNumLP+mk].Addr, d)
 		}
 	}
+	if prop == "C19" {
+		m.c19Init()
+	}
 	c.NextBlock(5 * time.Second)
 	return m
 }
@@ -331,7 +336,9 @@ func (m *lMachine) genOp(rt *rapid.T, i int) lOp {
 	cfg := &m.cs.Cfg
 	lbl := func(s string) string { return fmt.Sprintf("%s_%d", s, i) }
 	kinds := []string{"limit", "limit", "limit", "limit", "market", "mm", "cancel", "cancelall", "cancelmm", "deposit", "withdraw", "farm", "unfarm", "depositfarm", "unfarmwithdraw", "block", "block", "block", "newpool"}
-	if m.prop == "C04" {
+	if m.prop == "C19" {
+		kinds = []string{"gauge", "gauge", "gauge", "farm", "farm", "depositfarm", "depositfarm", "depositfarm", "unfarm", "deposit", "withdraw", "epoch", "epoch", "epoch", "epoch", "epoch", "block", "limit", "limit", "oprice", "newpool"}
+	} else if m.prop == "C04" {
 		kinds = append(kinds, "deposit", "withdraw", "farm", "unfarm", "block")
 	} else {
 		kinds = append(kinds, "limit", "limit", "cancel", "mm", "cancelmm", "block")
@@ -343,6 +350,8 @@ func (m *lMachine) genOp(rt *rapid.T, i int) lOp {
 	}
 	amounts := []string{"100", "101", "1000", "12345", "1000000", "999999999", "1000000000000", "1000000000000000000000"}
 	switch k {
+	case "epoch", "oprice", "gauge":
+		return m.c19GenOp(rt, i, k)
 	case "block":
 		op.Dt = rapid.SampledFrom([]int64{5, 5, 6, 60, 3600, 90000}).Draw(rt, lbl("dt"))
 	case "limit", "market":
@@ -421,6 +430,8 @@ func (m *lMachine) apply(i int, op lOp) {
 	case "block":
 		m.block(i, op.Dt)
 		return
+	case "oprice", "gauge":
+		m.c19Apply(i, op)
 	case "limit", "market":
 		m.placeOrder(i, op)
 	case "mm":
@@ -699,8 +710,22 @@ func (m *lMachine) block(i int, dt int64) {
 	}
 	m.trackOrders(i)
 	m.invariants(i, "end-block", true)
+	var c19pre *c19Snap
+	c19vals := map[string]map[string]*big.Rat{}
+	if m.prop == "C19" {
+		m.c19Sync(i)
+		c19pre = m.c19Pre()
+		for _, a := range m.cs.Cfg.Apps {
+			for _, p := range m.k.GetAllPools(c.Ctx, a.ID) {
+				c19vals[fmt.Sprintf("%d/%d", a.ID, p.Id)] = m.c19PoolValues(a.ID, p.Id)
+			}
+		}
+	}
 	if err := c.NextBlockRecover(time.Duration(dt) * time.Second); err != nil {
 		m.fail(m.prop+".block-hook-panic", "begin-block", "step %d: %v", i, err)
+	}
+	if m.prop == "C19" {
+		m.c19Post(i, c19pre, func(app, pool uint64) map[string]*big.Rat { return c19vals[fmt.Sprintf("%d/%d", app, pool)] })
 	}
 	if c.Height%150 == 0 {
 		m.converted = true
@@ -1016,6 +1041,8 @@ func (m *lMachine) finish() {
 		r.Class("app-id-differs-from-pair-id")
 	}
 	switch m.prop {
+	case "C19":
+		m.c19Finish()
 	case "C04":
 		if m.execDep > 0 && m.execWd > 0 && m.matched > 0 && m.ok["farm"]+m.ok["depositfarm"] > 0 && m.ok["unfarm"]+m.ok["unfarmwithdraw"] > 0 {
 			r.NonTrivial(m.cs)
